@@ -270,9 +270,25 @@ PROPS["C11"] = {
     "technique": "Lean 4 totality theorems for the modelled components (explicit panic outcome / structural termination); single-fault mutation sweep of corpus specs through the real parser and generator under recover + watchdog",
 }
 
+PROPS["C10"] = {
+    "lean_modules": ["Ogen.Props.C10"],
+    "suites": ["c10"],
+    "facts": ["genorder"],
+    "timeout": 3600,
+    "trusted_base": [
+        KERNEL, HARNESS,
+        "statements in lean/Ogen/Props/C10.lean; model GenOrder (Ogen/GenOrderLib.lean, hand-written from gen/write.go collectStrings / getBuffer / WriteSource and internal/xmaps): sortedKeys, the seen-set depth-first walk collect, runWrites, generate, writeSource over a World = (map order, completion order, pool content, buffer assignment)",
+        "ties: xmaps.SortedKeys (verif hook) and TemplateConfig.RegexStrings/RatStrings on random type graphs spread over the Types/Interfaces maps, the error type and operations, each evaluated repeatedly under Go's own map-order randomisation, compared line by line with the model; the observed completion order of WriteSource's writers replayed through the model's file system; regenerated facts (file names written on an all-template probe, getBuffer's calls)",
+        "NOT modelled, decided by search on every run: every other map range of parser and generator and what the templates read — each corpus / random / map-heavy document is generated 5 (thorough: 11) times in one process from a fresh parse with GOMAXPROCS in {1,2,4,16,…}, documents interleaved in different orders and the buffer pool poisoned through a verif hook, bytes compared; data races: a -race build of the harness generates the documents under the race detector (the Go memory model cannot be exhibited by the Lean model)",
+    ],
+    "assumptions": ["Go re-randomises map iteration order at every range statement (so repeated generation samples the orders)", "the race detector reports a race only when the racing accesses actually happen in a run"],
+    "level_text": "partial: sorted_keys_order_independent, string_table_spec / string_table_order_independent (the seen-set walk returns exactly the reachable types for any graph, any root order), schedule_independent (with the witness that distinct file names are needed), pool_independent and their composition files_independent_of_world_partial are Lean theorems over all graphs, map orders, schedules and pool contents; the model is tied to xmaps.SortedKeys, collectStrings and the observed writer schedules on every run. That no other place of the generator leaks map order, and the data-race clause, are decided by repeated generation and the race detector — a search, not a theorem.",
+    "level_note": "trusted: Lean kernel, statements, the hand-written ordering model and its ties, the verif hooks, Go's map-order randomisation and race detector as the search's oracles.",
+    "technique": "Lean 4 proofs (DFS reachability invariant, canonicity of strictly sorted lists, commutation of writes to distinct names) over a hand-written model of WriteSource's ordering logic tied by differential correspondence; repeated in-process regeneration under varied GOMAXPROCS / document order / poisoned pool and a race-detector child as failing-input search",
+}
+
 # properties not claimed, with the reason (kept current; see DESIGN.md §7)
 NOT_CLAIMED = {
-    "C10": "not applicable: determinism/race-freedom of generation lives in Go map iteration order, goroutine scheduling and the memory model; no executable model separate from the runtime can express it (DESIGN.md §7)",
     "C14": "not applicable: equality of two concrete artefacts obtained by re-running the generator; there is no law to state about a model (DESIGN.md §7)",
     "C17": "not applicable: decided by third-party YAML/JSON parsers; ogen's part has no decision logic to model (DESIGN.md §7)",
     "C19": "not applicable: goroutine schedules / race detector domain (DESIGN.md §7)",
@@ -281,5 +297,5 @@ for _p in ["C01", "C02", "C03", "C04", "C05", "C06", "C07", "C08", "C09", "C11",
     if _p not in PROPS:
         NOT_CLAIMED[_p] = "not claimed yet: machinery under construction (theorems exist in lean/Ogen, the tie to /repo is not finished)"
 
-HOOK_COMMITS = ["8a1dd2e74a0b79a9e824b1b1ebee79bbac4dec2d", "0932b764a1d9512d33b0edbdb0df4d17b735f038", "ef3ea3473b26c332debe40e97892594d565639bc"]
+HOOK_COMMITS = ["8a1dd2e74a0b79a9e824b1b1ebee79bbac4dec2d", "0932b764a1d9512d33b0edbdb0df4d17b735f038", "ef3ea3473b26c332debe40e97892594d565639bc", "aee233eac6b9663d90022f009f68c7808e867606"]
 
